@@ -5,6 +5,7 @@
 """
 import glob, json, os, re, sys
 summ = json.load(open("/verif/seeded/SUMMARIES.json"))
+first = json.load(open("/verif/seeded/FIRST_PASS.json"))
 want = sys.argv[1] if len(sys.argv) > 1 else None
 
 
@@ -21,12 +22,18 @@ for mp in sorted(glob.glob("/verif/seeded/*/meta.json")):
         continue
     res = m.get("check_results", {})
     best = []
+    detected_quick = set()
+    for k, v in sorted(res.items()):
+        if v.startswith("DETECTED") and k.endswith("/quick"):
+            detected_quick.add(k.split("/")[0])
     for k, v in sorted(res.items()):
         st = v.split()[0] if v.split() else "?"
+        if st != "DETECTED" and k.split("/")[0] in detected_quick:
+            continue  # a stale first-pass record of a tier that was not run again once quick detected the change
         test = re.search(r"Test\w+|Fuzz\w+", v)
         best.append("%s: %s%s" % (k, st.lower(), " (" + test.group(0) + ")" if test and st == "DETECTED" else ""))
-    rows.append((name, summ.get(name, m.get("needs_to_manifest", "")[:160]).replace("|", "/"), "; ".join(best)))
-print("| Seeded change | What it breaks / what it needs | Checks run against it (final state of the machinery) |")
-print("|---|---|---|")
+    rows.append((name, summ.get(name, m.get("needs_to_manifest", "")[:160]).replace("|", "/"), first.get(name, "?"), "; ".join(best)))
+print("| Seeded change | What it breaks / what it needs | First pass (machinery as it stood when the change arrived) | Final state of the machinery |")
+print("|---|---|---|---|")
 for r in rows:
-    print("| %s | %s | %s |" % r)
+    print("| %s | %s | %s | %s |" % r)
